@@ -493,9 +493,16 @@ func repoGarbageCollect(repo Repo, conf config.Config, index types.Index, locked
 			if err != nil || errClose != nil {
 				continue
 			}
+			// a config or layer that is the subject of referrers is a retained subject too
 			seen[man.Config.Digest] = true
+			if referrer, ok := subjects[man.Config.Digest]; ok {
+				manifests = append(manifests, referrer)
+			}
 			for _, layer := range man.Layers {
 				seen[layer.Digest] = true
+				if referrer, ok := subjects[layer.Digest]; ok {
+					manifests = append(manifests, referrer)
+				}
 			}
 		} else {
 			// unknown media type listed in an index, treat it as a blob
